@@ -515,6 +515,8 @@ def run_attr(name, v):
     if t is None:
         return "NOPRIM"
     x = t(int(v))
+    if not x.is_valid():
+        return "INVALID %s(%d) is rejected" % (name, int(v))
     ev = MarshalEvent(Path(PathNode("")) / PathNode("w"), t, x)
     rows = [parse_pretty(l) for l in pretty_attrs(ev)]
     attrs = x.attributes()
@@ -771,7 +773,10 @@ def run_stream9w(spec):
                 evs = list(Binary.marshal(tpm_type=Response, buffer=p, abort_on_error=False, **kw))
         except Exception as e:  # noqa
             return "NA part-%d-raises-%s" % (i, type(e).__name__)
-        if any(isinstance(e, WarningEvent) and type(e.error).__name__.startswith(("InputStream", "SizeConstraint")) for e in evs):
+        # a message whose size field covers padding behind its fields (Subceeded) is self-contained; one that is too
+        # short or too long for its size field is not comparable with its decode inside a stream
+        if any(isinstance(e, WarningEvent) and type(e.error).__name__ in ("SizeConstraintExceededError", "AnticipatedSizeConstraintExceededError",
+                                                                          "InputStreamBytesDepletedError", "InputStreamSuperfluousBytesError") for e in evs):
             return "NA part-%d-size-problem" % i
         indiv += sig(evs)
     if sexc is not None:
@@ -969,6 +974,39 @@ def run_fesrc(kind, abort, root, texthex):
     return "SAME"
 
 
+def run_remsrc(root, hexs):
+    """C13: the remainder reported with a constraint error does not depend on the kind of iterable, and is still there
+    after the decode has ended (read only once the generator is finished)"""
+    t, kw = parse_root(root)
+    data = b"" if hexs == "-" else bytes.fromhex(hexs)
+    ref = None
+    for kind in ("bytes", "list", "iter", "generator", "counting"):
+        buf = {"bytes": lambda: data, "list": lambda: list(data), "iter": lambda: iter(data), "generator": lambda: (b for b in data),
+               "counting": lambda: Counting(data)}[kind]()
+        g = Binary.marshal(tpm_type=t, buffer=buf, abort_on_error=True, **kw)
+        err = None
+        try:
+            for _ in g:
+                pass
+        except ConstraintViolatedError as e:
+            err = e
+        except Exception as e:  # noqa
+            return "NA %s" % type(e).__name__
+        del g
+        if err is None:
+            return "NA no-error"
+        try:
+            rem = bytes(err.bytes_remaining)
+        except Exception as e:  # noqa
+            rem = ("EXC " + type(e).__name__).encode()
+        sig = "%s rem=%s" % (type(err).__name__, rem.hex())
+        if ref is None:
+            ref = sig
+        elif sig != ref:
+            return "DIFF %s: %s | bytes: %s" % (kind, sig[-100:], ref[-100:])
+    return "SAME"
+
+
 def run_pretty(abort, root, hexs):
     """C14: rows of the pretty printer for the events of a decode (what was emitted before any exception);
     also runs the events printer.  Rows separated by \\x1e."""
@@ -1103,6 +1141,8 @@ def handle(line):
         return run_fevents(parts[1], parts[2] == "1", parts[3], parts[4])
     if parts[0] == "fesrc":
         return run_fesrc(parts[1], parts[2] == "1", parts[3], parts[4])
+    if parts[0] == "remsrc":
+        return run_remsrc(parts[1], parts[2])
     if parts[0] == "stream9":
         return run_stream9(parts[1])
     if parts[0] == "stream9w":
